@@ -1129,3 +1129,226 @@ class _DTypeObj(HeapObj):
 
     def clone(self):
         return _DTypeObj(self.content, self.level)
+
+
+# =============================================================================== design-space group (DesignSpace.to_hdf / from_hdf)
+# The group "design_space" of the node: a dataset "names" (sequence of variable names) and one sub-group per variable holding the
+# datasets size, l_b, u_b, var_type and - optionally - value.  Flattened model (object kind "dsg"): names / has_names, vgrp (set of
+# variable groups), vsize / vlb / vub / vtype / vval (variable -> dataset content; membership = the dataset exists).  Kept between two
+# `with h5py.File(..)` blocks in the ghosts h5ds_*.  h5py assumptions A1-A5, A11, A12 as above, plus
+#   A17 dataset[()] of a scalar dataset is the stored scalar; group.get(name) is the member or None   (validated natively)
+# numpy: ``array([t] * n, dtype="bytes")`` is the opaque value type_rep(t, n) whose element 0 (decoded) is t when n >= 1.
+# ASSUMPTION: no variable is called "names" (its group would collide with the dataset of the same name).
+DSMOD = "gemseo.algos.design_space"
+DS_NAMES = TList(TStr)
+from .values import TSet as _TSet2  # noqa: E402
+
+DS_FIELDS = {"names": DS_NAMES, "has_names": TBool, "vgrp": _TSet2(TStr), "vsize": TDict(TStr, TInt), "vlb": TDict(TStr, TNd), "vub": TDict(TStr, TNd),
+             "vtype": TDict(TStr, TVal), "vval": TDict(TStr, TNd)}
+for _f, _t in DS_FIELDS.items():
+    declare_ghost("h5ds_" + _f, _t.sort())
+declare_ghost("h5ds_has", z3.BoolSort())
+type_rep = z3.Function("np_type_rep", StrS, z3.IntSort(), ValS)  # array([t] * n, dtype="bytes")
+type_first = z3.Function("np_type_first", ValS, StrS)  # array(dataset)[0] (decoded by add_variable)
+DS_KEYS = {"size": "vsize", "l_b": "vlb", "u_b": "vub", "var_type": "vtype", "value": "vval"}
+
+
+def _in_dsmod(ex):
+    # (opt-in: only for contracts carrying ``c11_hdf = True``, so that the other contracts on gemseo.algos.design_space are not affected)
+    return ex.frame.module.name == DSMOD and getattr(ex.contract, "c11_hdf", False)
+
+
+class HdfDesignSpaceModels:
+    def _dsg(self, ex, ref):
+        o = ex.st.heap[ref.id] if isinstance(ref, Ref) else None
+        return o if _kind(o) == "dsg" else None
+
+    def call_builtin(self, ex, name, args, kwargs, lineno, node=None):
+        st = ex.st
+        if not _in_dsmod(ex):
+            return NotImplemented
+        if name == "h5py.File":
+            mode = args[1] if len(args) > 1 else kwargs.get("mode", "r")
+            if not isinstance(mode, str):
+                raise Unsupported("h5py.File with a symbolic mode")
+            ex.assumed.add("A1/A14: h5py.File - 'w' truncates, 'a'/'r' give the content left by the last writer (design-space group kept in ghosts h5ds_*)")
+            g = PyObj(GROUP, {})
+            g.schema_key = GROUP + "#dsg"
+            for f, t in DS_FIELDS.items():
+                if mode == "w":
+                    g.fields[f] = False if t == TBool else (st.alloc(_mk_empty(st, t)))
+                else:
+                    term = st.ghost_get("h5ds_" + f, t.sort())
+                    g.fields[f] = SV(term, TBool) if t == TBool else t.project(st, term)
+            node_ = PyObj(GROUP, {"dsg": st.alloc(g), "has": False if mode == "w" else SV(st.ghost_get("h5ds_has", z3.BoolSort()), TBool), "mode": mode})
+            node_.schema_key = GROUP + "#dsnode"
+            ref = st.alloc(node_)
+            st.ghost.setdefault("h5_open", []).append(ref)
+            return ref
+        short = name.rsplit(".", 1)[-1]
+        if short == "array" and name.startswith("numpy") and len(args) == 1:
+            a = args[0]
+            if isinstance(a, Ref) and isinstance(st.heap[a.id], ListObj) and "dtype" in kwargs:
+                return a  # A6: array(names, dtype=bytes_) holds the same sequence of names
+            if isinstance(a, SV) and a.ty == TVal and z3.is_app(a.term) and a.term.decl().name() == "np_type_rep":
+                return a
+            if isinstance(a, Ref) and isinstance(st.heap[a.id], H5View) and st.heap[a.id].kind == "dsval":
+                h = st.heap[a.id]
+                d = _dict(ex, st.heap[h.parent.id].fields[DS_KEYS[h.name[1]]])
+                ex.assumed.add("A12: array(dataset) is the stored content")
+                return SV(d.vals[h.name[0]], d.v)
+        return NotImplemented
+
+    def enter_context(self, ex, v, node):
+        if isinstance(v, Ref) and _kind(ex.st.heap[v.id]) == "dsnode":
+            return v
+        return NotImplemented
+
+    def exit_context(self, ex, node, exc):
+        st = ex.st
+        opened = st.ghost.get("h5_open")
+        if not opened or _kind(st.heap[opened[-1].id]) != "dsnode":
+            return NotImplemented
+        o = st.heap[opened.pop().id]
+        if o.fields["mode"] in ("w", "a"):
+            g = st.heap[o.fields["dsg"].id]
+            for f, t in DS_FIELDS.items():
+                v = g.fields[f]
+                st.ghost_set("h5ds_" + f, (z3.BoolVal(v) if isinstance(v, bool) else v.term) if t == TBool else t.embed(st, v))
+            h = o.fields["has"]
+            st.ghost_set("h5ds_has", z3.BoolVal(h) if isinstance(h, bool) else h.term)
+        return None
+
+    def binop(self, ex, op, a, b, lineno, inplace=False):
+        if op == "Mult" and _in_dsmod(ex) and isinstance(a, Ref) and isinstance(ex.st.heap[a.id], ListObj):
+            lo = ex.st.heap[a.id]
+            n = ex.num(b)
+            if lo.t == TStr and z3.is_int_value(z3.simplify(lo.n)) and z3.simplify(lo.n).as_long() == 1 and n is not None and n[1] == TInt:
+                ex.assumed.add("numpy: array([t] * n, dtype='bytes') is an opaque value whose element 0 decodes to t when n >= 1")
+                return SV(type_rep(z3.simplify(lo.elems[0]), n[0]), TVal)
+        return NotImplemented
+
+    def call_repo_model(self, ex, fi, args, kwargs, lineno):
+        if fi.qualname in (DSMOD + ".DesignSpace.__to_real", DSMOD + ".DesignSpace._DesignSpace__to_real") and _in_dsmod(ex):
+            ex.assumed.add("DesignSpace.__to_real is the identity on real data (complex values: not covered)")
+            return args[-1]
+        return NotImplemented
+
+    def pyobj_attr(self, ex, ref, o, attr, lineno):
+        return NotImplemented
+
+    def getitem(self, ex, cont, key, lineno):
+        st = ex.st
+        if _in_dsmod(ex) and isinstance(cont, SV) and cont.ty == TVal and key == 0:
+            return SV(type_first(cont.term), TStr)  # var_type[0]
+        if not isinstance(cont, Ref):
+            return NotImplemented
+        o = st.heap[cont.id]
+        k = _kind(o)
+        if k == "dsnode":
+            if key == "design_space":
+                if not st.decide(ex.truth(o.fields["has"])):
+                    raise _raise("KeyError", lineno)
+                return o.fields["dsg"]
+            if isinstance(key, SV) and key.ty == TStr:
+                return cont
+            raise Unsupported(f"h5py model: node[{key!r}]")
+        if k == "dsg":
+            if key == "names":
+                if not st.decide(ex.truth(o.fields["has_names"])):
+                    raise _raise("KeyError", lineno)
+                return st.alloc(H5View("dsnames", cont, None))
+            nt = _str_term(ex, key)
+            if not st.decide(st.heap[o.fields["vgrp"].id].member[nt]):
+                raise _raise("KeyError", lineno)
+            return st.alloc(H5View("dsvar", cont, nt))
+        if isinstance(o, H5View) and o.kind == "dsvar" and isinstance(key, str) and key in DS_KEYS:
+            d = _dict(ex, st.heap[o.parent.id].fields[DS_KEYS[key]])
+            if not st.decide(d.member[o.name]):
+                raise _raise("KeyError", lineno)
+            return st.alloc(H5View("dsval", o.parent, (o.name, key)))
+        if isinstance(o, H5View) and o.kind == "dsval" and key == ():
+            d = _dict(ex, st.heap[o.parent.id].fields[DS_KEYS[o.name[1]]])
+            ex.assumed.add("A17: dataset[()] of a scalar dataset is the stored scalar; group.get(name) is the member or None")
+            return SV(d.vals[o.name[0]], d.v)
+        return NotImplemented
+
+    def to_iter(self, ex, v, lineno):
+        from .engine import IterV
+
+        st = ex.st
+        if isinstance(v, Ref) and isinstance(st.heap[v.id], H5View) and st.heap[v.id].kind == "dsnames":
+            lo = st.heap[st.heap[st.heap[v.id].parent.id].fields["names"].id]
+            n, el = lo.n, lo.elems
+            it = IterV(n, lambda i: SV(el[i], TStr))
+            it.elem_type = TStr
+            return it
+        return NotImplemented
+
+    def call_method(self, ex, recv, name, args, kwargs, lineno):
+        st = ex.st
+        if name == "decode" and isinstance(recv, SV) and recv.ty == TStr and not args and _in_dsmod(ex):
+            return recv
+        if not isinstance(recv, Ref):
+            return NotImplemented
+        o = st.heap[recv.id]
+        k = _kind(o)
+        nm = name[3:] if name.startswith("h5:") else name
+        if k == "dsnode" and nm == "require_group":
+            if args[0] == "design_space":
+                o.fields["has"] = True
+                return o.fields["dsg"]
+            if isinstance(args[0], SV) and args[0].ty == TStr:
+                return recv
+        if k == "dsg":
+            if nm == "create_dataset" and args[0] == "names":
+                if st.decide(ex.truth(o.fields["has_names"])):
+                    raise _raise("ValueError", lineno)
+                n, el = _list_term(ex, kwargs.get("data", args[1] if len(args) > 1 else None), TStr)
+                lo = st.heap[o.fields["names"].id]
+                lo.n, lo.elems, lo.is_empty_literal = n, el, False
+                o.fields["has_names"] = True
+                return None
+            if nm == "require_group":
+                from .models import _set_add
+
+                nt = _str_term(ex, args[0])
+                _set_add(st.heap[o.fields["vgrp"].id], nt)
+                return st.alloc(H5View("dsvar", recv, nt))
+            if nm == "get" and args and isinstance(args[0], str) and args[0] in DS_KEYS:
+                return None  # (the group itself has no such dataset: no variable is called size / l_b / u_b / var_type / value)
+        if isinstance(o, H5View) and o.kind == "dsvar":
+            g = st.heap[o.parent.id]
+            key = args[0] if args else None
+            if isinstance(key, str) and key in DS_KEYS:
+                d = _dict(ex, g.fields[DS_KEYS[key]])
+                if nm == "create_dataset":
+                    if st.decide(d.member[o.name]):
+                        raise _raise("ValueError", lineno)
+                    data = kwargs.get("data", args[1] if len(args) > 1 else None)
+                    if isinstance(data, SV) and isinstance(data.ty, TOpt):
+                        data = SV(data.ty.dt.get(data.term), data.ty.inner)
+                    _dict_set(d, ex, o.name, d.v.embed(st, data))
+                    return None
+                if nm == "get":
+                    ex.assumed.add("A17: dataset[()] of a scalar dataset is the stored scalar; group.get(name) is the member or None")
+                    if st.decide(d.member[o.name]):
+                        return st.alloc(H5View("dsval", o.parent, (o.name, key)))
+                    return None
+        return NotImplemented
+
+
+def _mk_empty(st, t):
+    if isinstance(t, TDict):
+        o = DictObj.empty(st, t.k, t.v, t.ordered)
+        o.ty = t
+        return o
+    if isinstance(t, TList):
+        o = ListObj(t.t, z3.IntVal(0), st.fresh_const("el", z3.ArraySort(z3.IntSort(), t.t.sort())))
+        o.ty = t
+        return o
+    from .values import SetObj
+
+    o = SetObj(t.k, z3.K(t.k.sort(), z3.BoolVal(False)), z3.IntVal(0))
+    o.ty = t
+    return o
